@@ -124,8 +124,14 @@ def gen_project(rnd):
     else:
         C.append(f"from {src_dotted} import *")
         use = {n: n for n in ("fn", "Cls", "VAR", "Whole")}
+    alias_pkg = "pk/__init__.py" in files and rnd.random() < 0.3
+    extra_ret = ""
+    if alias_pkg:
+        # an aliased plain import of the package that may become an ancestor of the destination
+        C.insert(0, "import pk as P")
+        extra_ret = ", bool(P.__name__)"
     C += ["", "def report():", f"    o = {use['Cls']}(3)", f"    w = {use['Whole']}()",
-          f"    return [{use['fn']}(4), o.get(), o.tag, {use['VAR']} + 1, w.calc(3)]", "",
+          f"    return [{use['fn']}(4), o.get(), o.tag, {use['VAR']} + 1, w.calc(3){extra_ret}]", "",
           f"first = {use['fn']}(1)", ""]
     cpath = "pk/client.py" if client_in_pkg else "client.py"
     files[cpath] = "\n".join(C) + "\n"
@@ -134,7 +140,8 @@ def gen_project(rnd):
     files["import_all.py"] = f"import helper, dst, {cdot}, {src_dotted}\nprint('ok')\n" + ("import pk.dst, pk.inner.dst\n" if "pk/dst.py" in files else "")
     meta = {"src_in_pkg": src_in_pkg, "client_in_pkg": client_in_pkg, "style": style, "op": op,
             "uses_left_behind": uses_left_behind, "source_uses_at_import": source_uses_at_import,
-            "dst_has_imports": dst_has_imports, "src_path": "pk/src.py" if src_in_pkg else "src.py"}
+            "dst_has_imports": dst_has_imports, "src_path": "pk/src.py" if src_in_pkg else "src.py",
+            "client_aliases_pkg": alias_pkg}
     return files, meta
 
 
